@@ -1840,7 +1840,7 @@ def _run(o, thorough, rng, gens, side, provcfg, jobs):
     verdicts = validate_traces(o, items, "Trace_Workers")
     o.traces += len(items)
     # ---- judge ------------------------------------------------------------------
-    stats = {"replay_ok": 0, "replay_bad": 0, "stress_ok": 0, "stress_bad": 0, "diverged_replays": 0, "trace_mismatch": 0}
+    stats = {"replay_ok": 0, "replay_bad": 0, "stress_ok": 0, "stress_bad": 0, "diverged_replays": 0, "trace_mismatch": 0, "stress_rbj_drift": 0}
     for i, rp in enumerate(replays):
         case = gens[rp["cid"]]
         v = verdicts[i + 1]
@@ -1881,6 +1881,15 @@ def _run(o, thorough, rng, gens, side, provcfg, jobs):
         cj = {"kind": "V-stress", "scn": st["scn"], "workers": st["n"], "seed_id": st["sid"], "life": st["life"], "store": st["store"],
               "excs": st["excs"], "drv_exc": st["drv_exc"], "jm_final": st["jm_final"], "real": st["real"]}
         # free-running: the linearisation is approximate; use it only to explain failures
+        if st["scn"].get("prov") == "rbj" and any(x != "ok" for x in st["real"]) and st["store_ok"]:
+            # Files brought to the path in rollback-journal mode by other means are outside the statement (a database the
+            # library makes is a WAL database).  Free-running start-ups on such a file race for the exclusive lock the mode
+            # switch needs, and SQLite answers the loser "locked" at once (deadlock avoidance, no busy wait): seen on the
+            # unchanged tree in 1 of ~10 runs.  The deterministic replays keep the rbj scenarios (one start-up at a time).
+            o.note_drift({"why": "free-running start-up on rollback-journal files (outside the statement): a worker failed",
+                          "n": st["n"], "real": st["real"], "excs": st["excs"]})
+            stats["stress_rbj_drift"] += 1
+            continue
         res = judge(o, cj, st["real"], st["store_ok"], None, v, events=clean_events(st["trace"]))
         stats["stress_" + res] += 1
         if v["bad"] and res == "ok":
